@@ -448,8 +448,13 @@ class Scenario:
         if kind == 'declared-same':
             order = by_level
         else:
-            perms = [list(p) for p in itertools.permutations(by_level) if list(p) != by_level]
-            order = rng.choice(perms)
+            if len(by_level) <= 5:
+                perms = [list(p) for p in itertools.permutations(by_level) if list(p) != by_level]
+                order = rng.choice(perms)
+            else:
+                order = list(by_level)
+                while order == by_level:
+                    rng.shuffle(order)
         if kind == 'declared-extra':
             order = list(order)
             order.insert(rng.randrange(len(order) + 1), 'x')
@@ -1039,9 +1044,29 @@ def check_C12(ctx):
         singles = list(range(256)) if ctx.tier == 'thorough' else []
         while n < total and ctx.time_left() > budget_tail:
             names = abcd if rng.random() < 0.15 else abc
+            wide = (not singles) and rng.random() < 0.06
+            if wide:
+                # ten variables (levels and node numbers with two digits): functions of a few of them
+                names = [chr(ord('a') + i) for i in range(10)]
+                ctx.count('source:ten-variables')
             sp = Space(names)
             if singles:
                 tts = [singles.pop()]
+            elif wide:
+                tts = []
+                for _ in range(rng.choice([1, 2, 3])):
+                    sub = rng.sample(names, rng.randint(2, 4))
+                    t = 0
+                    for _ in range(rng.randint(1, 3)):
+                        c = sp.full
+                        for v in sub:
+                            r_ = rng.random()
+                            if r_ < 0.4:
+                                c &= sp.var(v)
+                            elif r_ < 0.8:
+                                c &= sp.neg(sp.var(v))
+                        t |= c
+                    tts.append(t)
             else:
                 k = rng.choice([1, 2, 2, 3, 3])
                 tts = [rng.randrange(sp.full + 1) for _ in range(k)]
